@@ -124,7 +124,8 @@ LINES_W = [
     ["lit: match community ", "w1", "lit:_", "w0", "lit: ", "w0"],
     # characters whose lower-case form has another length (U+0130) in front of the word, in the same token and in another
     ["lit:hostname \u0130ZM\u0130R-\u0130-", "w", "lit:-r1"],
-    ["lit: description \u0130\u0130\u0130\u0130\u0130\u0130\u0130\u0130\u0130", "w"],
+    # (a separator before the word: under IGNORECASE U+0130 also matches a listed word's own leading `i`)
+    ["lit: description \u0130\u0130\u0130\u0130\u0130\u0130\u0130\u0130\u0130_", "w"],
     ["lit:set location \"\u0130stanbul ", "w", "lit:\""],
 ]
 
